@@ -11,6 +11,11 @@ mkdir -p "$OUT"
 cp "$SRC/patch.diff" "$SRC/demo.rs" "$OUT/"
 cp "$SRC/meta.json" "$OUT/agent_meta.json"
 export CARGO_NET_OFFLINE=true
+# PHASE=confirm: only the confirmation in the scratch worktree (can run in parallel for several
+# mutants); PHASE=check: only the checks against /repo (needs the confirm phase's record);
+# unset: both
+PHASE="${PHASE:-both}"
+if [ "$PHASE" != check ]; then
 cd "$WT" || exit 2
 git checkout -q -- . ; rm -f scnr/tests/demo.rs
 cp "$OUT/demo.rs" scnr/tests/demo.rs
@@ -26,6 +31,11 @@ git checkout -q -- . ; rm -f scnr/tests/demo.rs
 echo "clean demo : $CLEAN_DEMO"
 echo "mutant demo: $MUT_DEMO"
 echo "failed tests with mutant: $FAILED_NAMES"
+printf '%s\n%s\n%s\n' "$CLEAN_DEMO" "$MUT_DEMO" "$FAILED_NAMES" > "$OUT/confirm.txt"
+[ "$PHASE" = confirm ] && exit 0
+else
+CLEAN_DEMO=$(sed -n 1p "$OUT/confirm.txt"); MUT_DEMO=$(sed -n 2p "$OUT/confirm.txt"); FAILED_NAMES=$(sed -n 3p "$OUT/confirm.txt")
+fi
 # run the checks against /repo with the patch
 cd /verif
 git -C /repo apply "$OUT/patch.diff" || { echo "patch does not apply to /repo"; exit 2; }
@@ -50,4 +60,4 @@ meta={"breaks_property":agent.get("property"),"summary":agent.get("summary"),"ne
  "checks_run_against_it":json.loads(res),"agent_verified":agent.get("verified")}
 json.dump(meta,open(out+'/meta.json','w'),indent=1)
 PY
-rm -f "$OUT/agent_meta.json"
+rm -f "$OUT/agent_meta.json" "$OUT/confirm.txt"
